@@ -358,14 +358,6 @@ func TestVerifC11bPipeline(t *testing.T) {
 		for _, r := range append(append([]vfC11Req{}, oldSeq...), newR...) {
 			dk += "|" + r.any.Class()
 		}
-		oldExercised, overlapped := 0, false
-		finish := func() {
-			vf.Case(oldExercised > 0, dk, func() interface{} {
-				return map[string]interface{}{"kind": "Pipeline", "mode": mode, "changes": changes, "old": text0, "new": text1,
-					"request_parked_in_old_pipeline_during_inherit": overlapped,
-					"old_generation_requests_after_inherit":         oldExercised, "new_generation_requests": len(newR)}
-			})
-		}
 		kindOf := func(c vfC11CallResult) string {
 			if c.fkind != "" {
 				return c.fkind
@@ -376,218 +368,237 @@ func TestVerifC11bPipeline(t *testing.T) {
 			rt.Fatalf("VF-INCONCLUSIVE %s did not return within %s\n%s", what, vfC11HangLimit, describe())
 		}
 
-		p0, err := vfC11NewPipe(env, text0)
-		if err != nil {
-			rt.Fatalf("VF-INCONCLUSIVE the same YAML was accepted and then rejected: %v", err)
+		// scenario runs the whole update once on brand-new pipelines and returns the first finding.
+		oldExercised, overlapped := 0, false
+		scenario := func(count bool) *vfC11Finding {
+			class := func(names ...string) {
+				if count {
+					vf.Class(names...)
+				}
+			}
+			panicFinding := func(gen string, c vfC11CallResult, format string, args ...interface{}) *vfC11Finding {
+				return &vfC11Finding{key: vfC11PanicKey(kindOf(c), gen, c), msg: fmt.Sprintf(format, args...)}
+			}
+			p0, err := vfC11NewPipe(env, text0)
+			if err != nil {
+				rt.Fatalf("VF-INCONCLUSIVE the same YAML was accepted and then rejected: %v", err)
+			}
+			if c := vfC11Call(func() { p0.p.Init(p0.spec, vfMapper) }); c.panicked || c.hung {
+				return &vfC11Finding{discard: "Init-second-time"}
+			}
+			p0closed := false
+			var p1 *vfC11Pipe
+			defer func() {
+				vfC11GateArmed.Store(nil)
+				if !p0closed {
+					vfC11Call(func() { p0.p.Close() })
+				}
+				if p1 != nil {
+					vfC11Call(func() { p1.p.Close() })
+				}
+			}()
+			nd0, nd1 := nondet0, nondet1
+			idx := 0
+			for _, r := range pre {
+				o := vfC11Send(env, p0.p, r)
+				if o.call.hung {
+					hung("Handle before the update")
+				}
+				if o.call.panicked {
+					return &vfC11Finding{discard: "Handle-second-time"}
+				}
+				if nd0 == "" && !o.skipped {
+					if _, d := vfC11Diff(o.obs, ref0[idx].obs); d {
+						nd0 = "observed:before-update-differs-from-twin"
+						class("twins-disagree")
+					}
+				}
+				idx++
+			}
+
+			judgeOld := func(when string, r vfC11Req, o vfC11Outcome, ref vfC11Outcome) *vfC11Finding {
+				if o.skipped {
+					return nil
+				}
+				if count {
+					oldExercised++
+				}
+				if o.call.panicked {
+					return panicFinding("old", o.call, "a request on the old pipeline panicked (%s): %s\nrequest: %s\n%s", when, o.call.text, r.any.String(), describe())
+				}
+				if nd0 != "" {
+					class("old-" + when + ": no-panic-only")
+					return nil
+				}
+				field, differs := vfC11Diff(o.obs, ref.obs)
+				if !differs {
+					class("old-" + when + ": same-as-untouched-twin")
+					return nil
+				}
+				if vfC11CleanError(o.obs) {
+					class("ambiguous-old-generation-clean-error-after-close")
+					return nil
+				}
+				return &vfC11Finding{differential: true,
+					key: fmt.Sprintf("kind=Pipeline old-generation-changed-behaviour when=%s field=%s", when, vfC11FieldClass(field)),
+					msg: fmt.Sprintf("the old pipeline answers differently (%s) than a pipeline of the same spec that never saw an update (field %s)\nrequest: %s\n got: %s\nwant: %s\n%s",
+						when, field, r.any.String(), o.obs, ref.obs, describe())}
+			}
+
+			// a request that already holds the old pipeline, parked at the gate
+			var arm *vfC11GateArm
+			var inDone chan vfC11Outcome
+			parked := false
+			if inflight {
+				arm = &vfC11GateArm{entered: make(chan struct{}), release: make(chan struct{})}
+				vfC11GateArmed.Store(arm)
+				inDone = make(chan vfC11Outcome, 1)
+				go func() { inDone <- vfC11Send(env, p0.p, rIn) }()
+				tm := time.NewTimer(vfC11HangLimit)
+				select {
+				case <-arm.entered:
+					parked = true
+					class("in-flight: parked inside the old pipeline during Inherit")
+				case o := <-inDone:
+					// the flow never reached the gate (jump, END, or a panic of the single generation)
+					vfC11GateArmed.Store(nil)
+					inDone <- o
+					class("in-flight: finished before the update (gate not reached)")
+				case <-tm.C:
+					hung("the in-flight request (before the update)")
+				}
+				tm.Stop()
+				if count {
+					overlapped = parked
+				}
+			}
+
+			p1, err = vfC11NewPipe(env, text1)
+			if err != nil {
+				rt.Fatalf("VF-INCONCLUSIVE the same YAML was accepted and then rejected: %v", err)
+			}
+			c := vfC11Call(func() { p1.p.Inherit(p1.spec, p0.p, vfMapper) })
+			if parked {
+				close(arm.release)
+			}
+			if c.hung {
+				hung("Pipeline.Inherit")
+			}
+			if c.panicked {
+				if inflight {
+					<-inDone
+				}
+				p1 = nil
+				return panicFinding("new", c, "Pipeline.Inherit panicked although both generations work on their own: %s\n%s", c.text, describe())
+			}
+			p0closed = true // Pipeline.Inherit closed it
+			class("inherit-done")
+
+			if inflight {
+				var o vfC11Outcome
+				tm := time.NewTimer(vfC11HangLimit)
+				select {
+				case o = <-inDone:
+				case <-tm.C:
+					hung("the in-flight request (after the update)")
+				}
+				tm.Stop()
+				if !parked && o.call.panicked {
+					return &vfC11Finding{discard: "Handle-second-time"}
+				}
+				if parked {
+					if f := judgeOld("in-flight", rIn, o, ref0[idx]); f != nil {
+						return f
+					}
+				}
+				idx++
+			}
+
+			checkNew := func() *vfC11Finding {
+				for i, r := range newR {
+					o := vfC11Send(env, p1.p, r)
+					if o.skipped {
+						continue
+					}
+					if o.call.hung {
+						hung("new pipeline Handle")
+					}
+					if o.call.panicked {
+						return panicFinding("new", o.call, "a request on the new pipeline panicked: %s\nrequest: %s\n%s", o.call.text, r.any.String(), describe())
+					}
+					if c := vfC11Call(func() { _ = p1.p.Status() }); c.panicked {
+						return panicFinding("new", c, "Status of the new pipeline panicked: %s\n%s", c.text, describe())
+					}
+					if nd1 != "" {
+						class("new: no-panic-only")
+						continue
+					}
+					field, differs := vfC11Diff(o.obs, ref1[i].obs)
+					if !differs {
+						class("new: same-as-fresh-twin")
+						continue
+					}
+					return &vfC11Finding{differential: true,
+						key: fmt.Sprintf("kind=Pipeline new-generation-differs-from-fresh-instance mode=%s field=%s", mode, vfC11FieldClass(field)),
+						msg: fmt.Sprintf("after the update request new[%d] is answered differently than by a freshly initialised pipeline of the new spec (field %s)\nrequest: %s\n got: %s\nwant: %s\n%s",
+							i, field, r.any.String(), o.obs, ref1[i].obs, describe())}
+				}
+				return nil
+			}
+			if newFirst {
+				if f := checkNew(); f != nil {
+					return f
+				}
+			}
+			for i, r := range oldR {
+				o := vfC11Send(env, p0.p, r)
+				if o.call.hung {
+					hung("old pipeline Handle after the update")
+				}
+				if f := judgeOld("after-close", r, o, ref0[idx+i]); f != nil {
+					return f
+				}
+			}
+			if c := vfC11Call(func() { _ = p0.p.Status() }); c.panicked {
+				return panicFinding("old", c, "Status of the old pipeline panicked after the update: %s\n%s", c.text, describe())
+			}
+			if !newFirst {
+				if f := checkNew(); f != nil {
+					return f
+				}
+			}
+			c = vfC11Call(func() { p1.p.Close() })
+			p1 = nil
+			if c.hung {
+				hung("Close of the new pipeline")
+			}
+			if c.panicked {
+				return panicFinding("new", c, "closing the new pipeline panicked: %s\n%s", c.text, describe())
+			}
+			return nil
 		}
-		if c := vfC11Call(func() { p0.p.Init(p0.spec, vfMapper) }); c.panicked || c.hung {
-			vf.Class("discarded-single-generation-panic", "discarded-single-generation-panic spec=old phase=Init-second-time")
+
+		fnd := scenario(true)
+		if fnd != nil && fnd.discard != "" {
+			vf.Class("discarded-single-generation-panic", "discarded-single-generation-panic spec=old phase="+fnd.discard)
 			vf.Case(false, "", nil)
 			return
 		}
-		p0closed := false
-		var p1 *vfC11Pipe
-		defer func() {
-			if arm := vfC11GateArmed.Swap(nil); arm != nil {
-				_ = arm
-			}
-			if !p0closed {
-				vfC11Call(func() { p0.p.Close() })
-			}
-			if p1 != nil {
-				vfC11Call(func() { p1.p.Close() })
-			}
-		}()
-		idx := 0
-		for _, r := range pre {
-			o := vfC11Send(env, p0.p, r)
-			if o.call.hung {
-				hung("Handle before the update")
-			}
-			if o.call.panicked {
-				vf.Class("discarded-single-generation-panic", "discarded-single-generation-panic spec=old phase=Handle-second-time")
-				vf.Case(false, "", nil)
-				return
-			}
-			if nondet0 == "" && !o.skipped {
-				if _, d := vfC11Diff(o.obs, ref0[idx].obs); d {
-					nondet0 = "observed:before-update-differs-from-twin"
-					vf.Class("twins-disagree")
-				}
-			}
-			idx++
-		}
-
-		judgeOld := func(when string, r vfC11Req, o vfC11Outcome, ref vfC11Outcome) bool {
-			if o.skipped {
-				return true
-			}
-			oldExercised++
-			if o.call.panicked {
-				finish()
-				vfC11Report(vf, rt, vfC11PanicKey(kindOf(o.call), "old", o.call), "a request on the old pipeline panicked (%s): %s\nrequest: %s\n%s", when, o.call.text, r.any.String(), describe())
-				return false
-			}
-			if nondet0 != "" {
-				vf.Class("old-" + when + ": no-panic-only")
-				return true
-			}
-			field, differs := vfC11Diff(o.obs, ref.obs)
-			if !differs {
-				vf.Class("old-" + when + ": same-as-untouched-twin")
-				return true
-			}
-			if vfC11CleanError(o.obs) {
-				vf.Class("ambiguous-old-generation-clean-error-after-close")
-				return true
-			}
-			finish()
-			vfC11Report(vf, rt, fmt.Sprintf("kind=Pipeline old-generation-changed-behaviour when=%s field=%s", when, vfC11FieldClass(field)),
-				"the old pipeline answers differently (%s) than a pipeline of the same spec that never saw an update (field %s)\nrequest: %s\n got: %s\nwant: %s\n%s",
-				when, field, r.any.String(), o.obs, ref.obs, describe())
-			return false
-		}
-
-		// a request that already holds the old pipeline, parked at the gate
-		var arm *vfC11GateArm
-		var inDone chan vfC11Outcome
-		if inflight {
-			arm = &vfC11GateArm{entered: make(chan struct{}), release: make(chan struct{})}
-			vfC11GateArmed.Store(arm)
-			inDone = make(chan vfC11Outcome, 1)
-			go func() { inDone <- vfC11Send(env, p0.p, rIn) }()
-			tm := time.NewTimer(vfC11HangLimit)
-			select {
-			case <-arm.entered:
-				overlapped = true
-				vf.Class("in-flight: parked inside the old pipeline during Inherit")
-			case o := <-inDone:
-				// the flow never reached the gate (jump, END, or a panic of the single generation)
-				vfC11GateArmed.Store(nil)
-				inDone <- o
-				vf.Class("in-flight: finished before the update (gate not reached)")
-			case <-tm.C:
-				hung("the in-flight request (before the update)")
-			}
-			tm.Stop()
-		}
-
-		p1, err = vfC11NewPipe(env, text1)
-		if err != nil {
-			rt.Fatalf("VF-INCONCLUSIVE the same YAML was accepted and then rejected: %v", err)
-		}
-		c := vfC11Call(func() { p1.p.Inherit(p1.spec, p0.p, vfMapper) })
-		if overlapped {
-			close(arm.release)
-		}
-		if c.hung {
-			hung("Pipeline.Inherit")
-		}
-		if c.panicked {
-			if inflight {
-				<-inDone
-			}
-			p1 = nil
-			finish()
-			vfC11Report(vf, rt, vfC11PanicKey(kindOf(c), "new", c), "Pipeline.Inherit panicked although both generations work on their own: %s\n%s", c.text, describe())
-			return
-		}
-		p0closed = true // Pipeline.Inherit closed it
-		vf.Class("inherit-done")
-
-		if inflight {
-			var o vfC11Outcome
-			tm := time.NewTimer(vfC11HangLimit)
-			select {
-			case o = <-inDone:
-			case <-tm.C:
-				hung("the in-flight request (after the update)")
-			}
-			tm.Stop()
-			when := "in-flight"
-			if !overlapped {
-				when = "before-update"
-			}
-			if !overlapped && o.call.panicked {
-				vf.Class("discarded-single-generation-panic", "discarded-single-generation-panic spec=old phase=Handle-second-time")
-				vf.Case(false, "", nil)
-				return
-			}
-			if overlapped {
-				if !judgeOld(when, rIn, o, ref0[idx]) {
-					return
-				}
-			}
-			idx++
-		}
-
-		checkNew := func() bool {
-			for i, r := range newR {
-				o := vfC11Send(env, p1.p, r)
-				if o.skipped {
-					continue
-				}
-				if o.call.hung {
-					hung("new pipeline Handle")
-				}
-				if o.call.panicked {
-					finish()
-					vfC11Report(vf, rt, vfC11PanicKey(kindOf(o.call), "new", o.call), "a request on the new pipeline panicked: %s\nrequest: %s\n%s", o.call.text, r.any.String(), describe())
-					return false
-				}
-				if c := vfC11Call(func() { _ = p1.p.Status() }); c.panicked {
-					finish()
-					vfC11Report(vf, rt, vfC11PanicKey(kindOf(c), "new", c), "Status of the new pipeline panicked: %s\n%s", c.text, describe())
-					return false
-				}
-				if nondet1 != "" {
-					vf.Class("new: no-panic-only")
-					continue
-				}
-				field, differs := vfC11Diff(o.obs, ref1[i].obs)
-				if !differs {
-					vf.Class("new: same-as-fresh-twin")
-					continue
-				}
-				finish()
-				vfC11Report(vf, rt, fmt.Sprintf("kind=Pipeline new-generation-differs-from-fresh-instance mode=%s field=%s", mode, vfC11FieldClass(field)),
-					"after the update request new[%d] is answered differently than by a freshly initialised pipeline of the new spec (field %s)\nrequest: %s\n got: %s\nwant: %s\n%s",
-					i, field, r.any.String(), o.obs, ref1[i].obs, describe())
-				return false
-			}
-			return true
-		}
-		if newFirst && !checkNew() {
-			return
-		}
-		for i, r := range oldR {
-			o := vfC11Send(env, p0.p, r)
-			if o.call.hung {
-				hung("old pipeline Handle after the update")
-			}
-			if !judgeOld("after-close", r, o, ref0[idx+i]) {
-				return
+		if fnd != nil && fnd.differential {
+			// a difference must be reproducible on brand-new pipelines (see the filter-level test)
+			again := scenario(false)
+			if again == nil || again.key != fnd.key {
+				vf.Class("differential-mismatch-not-reproduced")
+				fnd = nil
 			}
 		}
-		if c := vfC11Call(func() { _ = p0.p.Status() }); c.panicked {
-			finish()
-			if vfC11Report(vf, rt, vfC11PanicKey(kindOf(c), "old", c), "Status of the old pipeline panicked after the update: %s\n%s", c.text, describe()) {
-				return
-			}
+		vf.Case(oldExercised > 0, dk, func() interface{} {
+			return map[string]interface{}{"kind": "Pipeline", "mode": mode, "changes": changes, "old": text0, "new": text1,
+				"request_parked_in_old_pipeline_during_inherit": overlapped,
+				"old_generation_requests_after_inherit":         oldExercised, "new_generation_requests": len(newR)}
+		})
+		if fnd != nil {
+			vfC11Report(vf, rt, fnd.key, "%s", fnd.msg)
 		}
-		if !newFirst && !checkNew() {
-			return
-		}
-		c = vfC11Call(func() { p1.p.Close() })
-		p1 = nil
-		if c.hung {
-			hung("Close of the new pipeline")
-		}
-		if c.panicked {
-			finish()
-			vfC11Report(vf, rt, vfC11PanicKey(kindOf(c), "new", c), "closing the new pipeline panicked: %s\n%s", c.text, describe())
-			return
-		}
-		finish()
 	})
 }
